@@ -72,8 +72,8 @@ Definition parse_unmodelled (c : pcase) : bool :=
 
 (* ---------------------------------------------------------------- construct / deserialize stream *)
 (* observed exception: None = accepted; Some (raw, json) *)
-Record ccase := { cc_ff : bool; cc_cls : pystr; cc_args : list arg; cc_obs : option exn_text }.
-Record dcase := { dc_ff : bool; dc_cls : pystr; dc_args : list darg; dc_bound : list darg; dc_obs : option exn_text }.
+Record ccase := { cc_ff : bool; cc_cls : pystr; cc_args : list uarg; cc_obs : option exn_text }.
+Record dcase := { dc_ff : bool; dc_cls : pystr; dc_args : list darg; dc_bound : list (darg * bool); dc_obs : option exn_text }.
 
 (* raw text is compared for plain messages, the decoded list for the JSON form *)
 Definition exn_agrees (m o : option exn_text) : bool :=
@@ -91,10 +91,13 @@ Definition exn_agrees (m o : option exn_text) : bool :=
 Definition no_dumps (l : list pystr) : pystr := [].
 
 Definition construct_mismatch (c : ccase) : bool :=
-  negb (exn_agrees (construct no_dumps (cc_ff c) (cc_cls c) (cc_args c)) (cc_obs c)).
+  negb (exn_agrees (construct_u no_dumps (cc_ff c) (cc_cls c) (cc_args c)) (cc_obs c)).
+
+(* the case lies where the theorems about [construct] speak (every error a TypeError / ValueError) *)
+Definition construct_hyps (c : ccase) : bool := all_caught (cc_args c).
 
 Definition deser_mismatch (c : dcase) : bool :=
-  negb (exn_agrees (deserialize no_dumps (dc_ff c) (dc_cls c) (dc_args c) (dc_bound c)) (dc_obs c)).
+  negb (exn_agrees (deserialize_u no_dumps (dc_ff c) (dc_cls c) (dc_args c) (dc_bound c)) (dc_obs c)).
 
 (* ---------------------------------------------------------------- guard stream *)
 (* one real validation chain run on one value: the field object's attributes as the harness read them,
